@@ -19,6 +19,9 @@ incomplete for the complete input.  Monitors:
                  applicable (05 FF / 01 xx / 05 07 / 05 08, bare close for a foreign version) and is closed; no upstream
                  connection, no child data
   incomplete     nothing but the mandatory replies (or an allowed early rejection); no upstream connection
+  eof            client EOF while the handshake is incomplete -- at EVERY offset of valid streams (fixed matrix: all auth variants x
+                 address types; message boundaries 0 / after greeting / after auth always included) and in random cases: exactly one
+                 close of the client before teardown, no OpenConnection, no next layer
   segmentation   (client bytes, child bytes, server bytes, connect targets, client closed) identical for every
                  segmentation/schedule of the same input
 """
@@ -35,11 +38,12 @@ LEVEL = "exploration"
 ENGINE = "sansio"
 BUDGET = {"quick": (1500, 12), "thorough": (40000, 240)}
 WORKERS = {"quick": 4, "thorough": 16}
-REQUIRED = ["totality", "accept", "accept.trailing", "connect_fail", "reject.greet", "reject.auth", "reject.request", "incomplete", "segmentation", "auth_hook"]
+REQUIRED = ["totality", "accept", "accept.trailing", "connect_fail", "reject.greet", "reject.auth", "reject.request", "incomplete", "segmentation", "auth_hook", "eof_during_handshake", "eof_on_message_boundary"]
 TECHNIQUE = "runtime monitoring: sans-io segmentation/schedule sweep of the real Socks5Proxy layer + independent RFC 1928/1929 reference reader"
 RULE = (
     "case = generated SOCKS5 client byte string (greeting, optional RFC 1929 auth, request with atyp 1/3/4 or invalid fields, trailing payload; "
-    "byte mutations and truncation at an offset) x proxyauth on/off x connection_strategy x connect failure x client EOF, executed whole, "
+    "byte mutations and truncation at an offset; plus a fixed matrix: valid streams of every auth variant x address type cut at message boundaries "
+    "+-1 (quick) / every offset (thorough) followed by client EOF) x proxyauth on/off x connection_strategy x connect failure x client EOF, executed whole, "
     "1-byte-wise, at sampled (quick) / all (thorough, short inputs) single split points and under random cuts and schedules; signature = "
     "(reference verdict, stage, reason, atyp, auth, strategy, connect failure, trailing payload?, truncated?, lenient flags); non-trivial iff the "
     "handshake completed with trailing payload or was rejected / left incomplete at a stage, and >= 3 segmentations ran"
@@ -235,6 +239,7 @@ def execute(spec, opts, rng, seg, schedule, delay_auth):
     d.start()
     d.run()
     pre = {
+        "client_closes": sum(1 for x in d.log if x[0] == "cmd" and x[2] in ("CloseConnection(Client)", "CloseTcpConnection(Client)")),
         "client_rx": bytes(d.out[d.client]),
         "client_closed": cp.got_eof and cp.closed_by_proxy,
         "client_state_closed": d.client.state is ConnectionState.CLOSED,
@@ -250,6 +255,8 @@ def execute(spec, opts, rng, seg, schedule, delay_auth):
         "opened": list(opened),
         "address": d.context.server.address,
         "client_closed": pre["client_closed"],
+        "client_closes": pre["client_closes"],
+        "client_state_closed": pre["client_state_closed"],
         "auth_seen": auth_seen,
     }
     return d, out
@@ -288,6 +295,15 @@ def check_outcome(ctx, spec, an, o, d, witness):
         bad.append(("exception-escaped-layer", [e[:2] for e in d.exceptions]))
     if d.anomalies:
         bad.append(("driver-anomaly", d.anomalies[:3]))
+    if an["verdict"] == "incomplete" and spec["client_eof"]:
+        # the client went away in the middle of (or exactly between) handshake messages: the proxy must let go of the connection
+        # at once -- exactly one close of the client, before any teardown by a timeout -- whatever the offset of the cut
+        ctx.count("eof_during_handshake")
+        if spec.get("boundary"):
+            ctx.count("eof_on_message_boundary")
+        if o["client_closes"] != 1 or not o["client_state_closed"]:
+            bad.append(("client-eof-during-handshake-not-closed" if o["client_closes"] == 0 else "client-closed-more-than-once",
+                        {"closes": o["client_closes"], "stage": an["stage"], "cut_at": len(spec["data"]), "boundary": spec.get("boundary")}))
     if an["lenient"]:
         ctx.count("lenient_inputs")
         return bad
@@ -369,6 +385,63 @@ def classify(spec, an, kind):
     return None
 
 
+def matrix_streams():
+    """Fixed valid streams: (name, auth, U, P, greeting, auth message, request) for every auth variant x address type."""
+    reqs = {
+        "v4": b"\x05\x01\x00\x01\x7f\x00\x00\x01\x00\x50",
+        "domain": b"\x05\x01\x00\x03\x0bexample.com\x01\xbb",
+        "v6": b"\x05\x01\x00\x04" + b"\x20\x01\x0d\xb8" + b"\x00" * 11 + b"\x01" + b"\x1f\x90",
+    }
+    out = []
+    for aname, req in reqs.items():
+        out.append((f"noauth/{aname}", False, "u", "p", b"\x05\x01\x00", b"", req))
+        out.append((f"noauth-2methods/{aname}", False, "u", "p", b"\x05\x02\x02\x00", b"", req))
+        for cname, U, P in (("short", "u", "p"), ("typical", "user", "s3cret:with:colons"), ("long", "a" * 255, "b" * 255), ("utf8", "élève", "üñî")):
+            u, pw = U.encode(), P.encode()
+            out.append((f"auth-{cname}/{aname}", True, U, P, b"\x05\x02\x00\x02", bytes([1, len(u)]) + u + bytes([len(pw)]) + pw, req))
+        out.append((f"auth-wrong-creds/{aname}", True, "user", "pass", b"\x05\x01\x02", b"\x01\x04user\x05wrong", req))
+    return out
+
+
+def eof_matrix(ctx, opts):
+    """Client EOF at every offset of valid streams (quick: every message boundary, its neighbours and the first bytes; thorough: every
+    offset), whole / 1-byte / random segmentations, eager and lazy.  Item k runs on worker k % nworkers."""
+    k = -1
+    for name, auth, U, P, greet, authmsg, req in matrix_streams():
+        full = greet + authmsg + req
+        bounds = [0, len(greet)] + ([len(greet) + len(authmsg)] if authmsg else [])
+        if ctx.tier == "quick":
+            offs = sorted({o for b in bounds for o in (b - 1, b, b + 1) if 0 <= o < len(full)} | {1, 2, len(full) - 1, len(full) - 2})
+        else:
+            offs = list(range(len(full)))
+        for off in offs:
+            k += 1
+            if k % ctx.nworkers != ctx.worker:
+                continue
+            r = ctx.case_rng(k, "eofmatrix")
+            spec = {"data": full[:off], "auth": auth, "U": U, "P": P, "strategy": ("eager", "lazy")[k % 2], "connect_fail": False, "client_eof": True,
+                    "server_payload": b"", "server_eof": False, "decide_after": 1, "feats": ["eof-matrix"], "boundary": off in bounds}
+            opts.update(connection_strategy=spec["strategy"], proxyauth="any" if auth else None)
+            an = ref.analyse(spec["data"], auth, lambda u, p: u == U.encode() and p == P.encode())
+            nvar = 0
+            for seg, sched, delay_auth in (("whole", "fifo", False), ("bytes", "fifo", False), ("random", "random", True), ("random", "random", False)):
+                d, o = execute(spec, opts, r, seg, sched, delay_auth)
+                if d.budget_exceeded:
+                    ctx.count("inconclusive_cases")
+                    continue
+                nvar += 1
+                witness = {"matrix": name, "data": spec["data"], "cut_at": off, "of": len(full), "message_boundary": spec["boundary"], "auth_required": auth, "strategy": spec["strategy"],
+                           "seg": seg, "schedule": sched, "reference": {"verdict": an["verdict"], "stage": an["stage"], "why": an["why"]}, "client_rx": o["client_rx"][:40], "closes": o["client_closes"]}
+                stop = False
+                for kind, detail in check_outcome(ctx, spec, an, o, d, witness):
+                    ctx.violation(kind, {**witness, "detail": detail}, classify(spec, an, kind))
+                    stop = True
+                if stop:
+                    break
+            ctx.case(("eof-matrix", name.split("/")[0], name.split("/")[1], an["verdict"], an["stage"], spec["boundary"], spec["strategy"]), nvar >= 3,
+                     {"matrix": name, "cut_at": off, "of": len(full), "boundary": spec["boundary"], "verdict": an["verdict"], "stage": an["stage"]})
+
+
 def run(ctx):
     from mitmproxy.addons.proxyauth import ProxyAuth
 
@@ -376,6 +449,10 @@ def run(ctx):
     opts = tctx.options
     defaults = {"connection_strategy": opts.connection_strategy, "proxyauth": opts.proxyauth}
     try:
+        if ctx.only_case is None or ctx.only_case < 0:
+            eof_matrix(ctx, opts)  # matrix violations carry case index -1: a replay of such a witness re-runs the (deterministic) matrix
+            if ctx.only_case is not None:
+                return
         for i in ctx.cases():
             r = ctx.rng
             spec = gen_case(r)
